@@ -1,30 +1,14 @@
 import ScVerif.C11.LocksetLemmas
 import ScVerif.C11.Trace
-import ScVerif.Generated.C11Facts
 /-!
 C11 — property theorems (claim level: **partial**, see props/C11.json).
 
-`C11_lock_discipline` is re-checked on every run against the table regenerated from /repo's sources.
-The remaining theorems hold for every table; they are what makes the statement more than a lookup:
+`C11_lock_discipline` (PropsTable.lean) is re-checked on every run against the table regenerated from
+/repo's sources.  The theorems of this file hold for every table; they are what makes the statement more than a lookup:
 the executable check decides the Prop-level discipline, the discipline is implied by the classical
 guard discipline, is monotone, composes, and is refuted by a write under a shared lock.
 -/
 namespace ScVerif.C11
-open ScVerif.Generated.C11
-
-set_option maxRecDepth 100000 in
-/-- Every conflicting pair of accesses in the extracted table (same field, at least one write, both
-possibly live on different goroutines; a row is also paired with itself) is ordered by a common mutex
-with an exclusive side, by construction-before-publication, by a single-goroutine role, or by a
-channel-close edge. -/
-theorem C11_lock_discipline : raceFree accesses :=
-  (raceFreeW_iff accesses).mp (by decide +kernel)
-
-set_option maxRecDepth 100000 in
-/-- The table is not trivially race free: it contains conflicting pairs of live rows. -/
-example : (accesses.any fun a => accesses.any fun b =>
-    conflictB a b && a.phase == Phase.live && b.phase == Phase.live && a.fn != b.fn) = true := by
-  decide +kernel
 
 /-- The executable check used by the driver, the harness and `decide` is exactly the specification. -/
 theorem C11_check_sound_complete (tbl : List Access) : raceFreeB tbl = true ↔ raceFree tbl :=
